@@ -112,7 +112,8 @@ type Run struct {
 	ExitCodes     []int
 	Stalled       bool
 	StepLimit     bool
-	LastProgress  int // step at which a job last started or ended, or mrp exited
+	Cluster       []*ClusterJob // jobs submitted through the (simulated) cluster scheduler
+	LastProgress  int           // step at which a job last started or ended, or mrp exited
 	progressSig   int
 	crashIdx      int
 	Output        []string // mrp stdout lines
@@ -132,6 +133,26 @@ type FileRec struct {
 	InDir   string // the directory-valued output this file belongs to
 	Logical string // the path the stage reported, when it differs (through a symlinked directory)
 	Tmp     bool   // in the job's temporary directory
+}
+
+// ClusterJob is a job handed to the simulated cluster scheduler (qsub).
+type ClusterJob struct {
+	Id        string
+	SubmitSeq int
+	Rec       *JobRec   // nil until the scheduler starts it
+	Proc      *vrt.Proc // nil until started
+	Lost      bool      // the scheduler dropped it without running it
+}
+
+// Live reports whether the scheduler still knows the job (queued or running).
+func (cj *ClusterJob) Live() bool {
+	if cj.Lost {
+		return false
+	}
+	if cj.Proc == nil {
+		return true
+	}
+	return !cj.Proc.Exited && !cj.Proc.Dead
 }
 
 // OpEvent is an operator/simulator action in the history.
@@ -514,6 +535,7 @@ func (r *Run) Execute() {
 	vos.ResetWeather()
 	vproc.Reset(4100)
 	vproc.T.Launch = r.launch
+	vproc.T.Path["qsub"] = true
 	vproc.T.OnExit = r.onProcExit
 	vproc.T.Path["qsub"] = true
 	vrt.S.OnPanic = func(t *vrt.Task, rec interface{}, stack []byte) {
